@@ -33,11 +33,14 @@ struct Case {
   // client
   bool accept_hint = true;
   bool refuse_only_announced_hints = false;
+  bool cli_block_mode = false;
+  unsigned req_idx = 0;
   coap_dtls_cpsk_info_t ih_info;
   Bytes cli_identity, cli_key;
   // observations
   std::vector<std::string> srv_seen;     // markers in the order the server handler saw them
   std::map<std::string, int> responses, nacks;
+  std::map<std::vector<uint8_t>, std::string> marker_by_token;
   unsigned cli_connected = 0, srv_connected = 0, cli_unknown_resp = 0;
 } *G = nullptr;
 
@@ -87,8 +90,13 @@ coap_response_t h_resp(coap_session_t *, const coap_pdu_t *, const coap_pdu_t *r
   if (m.compare(0, 4, "RSP-") == 0) G->responses[m.substr(4)]++; else G->cli_unknown_resp++;
   return COAP_RESPONSE_OK;
 }
-void h_nack(coap_session_t *, const coap_pdu_t *sent, const coap_nack_reason_t, const coap_mid_t) {
-  if (sent) G->nacks[marker_of(sent)]++; else G->nacks["<no pdu>"]++;
+void h_nack(coap_session_t *, const coap_pdu_t *sent, const coap_nack_reason_t rsn, const coap_mid_t mid) {
+  if (getenv("C19_DEBUG")) fprintf(stderr, "NACK sent=%p reason=%d mid=%d\n", (const void *)sent, (int)rsn, (int)mid);
+  if (!sent) { G->nacks["<no pdu>"]++; return; }
+  // the request is identified by its token (the PDU handed to the NACK handler may be libcoap's own record of the request, without the payload)
+  coap_bin_const_t tk = coap_pdu_get_token(sent);
+  auto it = G->marker_by_token.find(std::vector<uint8_t>(tk.s, tk.s + tk.length));
+  G->nacks[it != G->marker_by_token.end() ? it->second : marker_of(sent)]++;
 }
 int ev_cli(coap_session_t *, const coap_event_t ev) { if (G && (ev == COAP_EVENT_DTLS_CONNECTED || ev == COAP_EVENT_SESSION_CONNECTED)) G->cli_connected++; return 0; }
 int ev_srv(coap_session_t *, const coap_event_t ev) { if (G && (ev == COAP_EVENT_DTLS_CONNECTED || ev == COAP_EVENT_SESSION_CONNECTED)) G->srv_connected++; return 0; }
@@ -220,11 +228,16 @@ int verif_case(const uint8_t *tape, size_t tlen, Info *info) {
     coap_resource_t *res = coap_resource_init(coap_make_str_const("r"), 0);
     coap_register_handler(res, COAP_REQUEST_PUT, h_srv);
     coap_register_handler(res, COAP_REQUEST_GET, h_srv);
+    coap_register_handler(res, COAP_REQUEST_FETCH, h_srv);
     coap_add_resource(sctx, res);
     coap_register_event_handler(sctx, ev_srv);
     w.add_context(sctx);
     coap_register_response_handler(cctx, h_resp);
     coap_register_nack_handler(cctx, h_nack);
+    // (last tape byte, bit 1) the client lets libcoap do block-wise transfers and every second request is a FETCH with an Observe option: libcoap then
+    // keeps a second record of the request (its large-receive state) next to the queued message - still one request, one NACK
+    cs.cli_block_mode = tlen > 0 && (tape[tlen - 1] & 2);
+    if (cs.cli_block_mode) { coap_context_set_block_mode(cctx, COAP_BLOCK_USE_LIBCOAP); info->label("client-block-mode"); }
     coap_register_event_handler(cctx, ev_cli);
     w.add_context(cctx);
     if (warm_up) {
@@ -275,13 +288,17 @@ int verif_case(const uint8_t *tape, size_t tlen, Info *info) {
   for (auto &r : reqs) {
     // (coap_pdu_init() rather than coap_new_pdu(): the latter waits - processing I/O on the wall clock - until the first exchange of a
     //  connecting session is over, so a single-threaded application cannot queue behind it)
-    coap_pdu_t *pdu = coap_pdu_init(r.second ? COAP_MESSAGE_CON : COAP_MESSAGE_NON, COAP_REQUEST_CODE_PUT, coap_new_message_id(session), 1152);
+    bool fetch_obs = cs.cli_block_mode && (cs.req_idx++ % 2 == 0);
+    coap_pdu_t *pdu = coap_pdu_init(r.second ? COAP_MESSAGE_CON : COAP_MESSAGE_NON, fetch_obs ? COAP_REQUEST_CODE_FETCH : COAP_REQUEST_CODE_PUT, coap_new_message_id(session), 1152);
     if (!pdu) continue;
     uint8_t tk[4];
     size_t tl = 0;
     coap_session_new_token(session, &tl, tk);
     coap_add_token(pdu, tl > 4 ? 4 : tl, tk);
+    cs.marker_by_token[std::vector<uint8_t>(tk, tk + (tl > 4 ? 4 : tl))] = r.first;
+    if (fetch_obs) coap_add_option(pdu, COAP_OPTION_OBSERVE, 0, nullptr);
     coap_add_option(pdu, COAP_OPTION_URI_PATH, 1, (const uint8_t *)"r");
+    if (fetch_obs) { uint8_t cf = 0; coap_add_option(pdu, COAP_OPTION_CONTENT_FORMAT, 0, &cf); }   // text/plain (FETCH needs a Content-Format)
     coap_add_data(pdu, r.first.size(), (const uint8_t *)r.first.data());
     coap_send(session, pdu);
   }
